@@ -137,6 +137,30 @@ def check(prog, run):
         else:
             run.violation("reverse-lookup-first-match", c, "returns %r, expected %r" % (p.value if p.returned else p.raised.describe(), want),
                           file, ecls.lookup("__getitem__")[0].node.lineno, "pyscsi.utils.enum:Enum.__getitem__")
+    # enumerations of other sizes (one name, two names; int and str values; built from a mapping, from keywords, or reached by
+    # removing names): the lookup must not depend on how many names there are
+    sizes = (("one int member", lambda: I.instantiate(ecls, [{"only": 7}], {}, None, _F()), ((7, "only"), (8, ""), ("only", ""))),
+             ("one member by keyword", lambda: I.instantiate(ecls, [], {"only": 7}, None, _F()), ((7, "only"), (0, ""))),
+             ("one str member", lambda: I.instantiate(ecls, [{"s": "Ax"}], {}, None, _F()), (("Ax", "s"), ("A", ""), ("x", ""))),
+             ("two members", lambda: I.instantiate(ecls, [{"x": 1, "y": "1"}], {}, None, _F()), ((1, "x"), ("1", "y"), (2, ""))),
+             ("one member left after remove", None, ((2, "b"), (1, ""))))
+    for label, mk, probes in sizes:
+        for val, want in probes:
+            def t_sz(mk=mk, val=val):
+                if mk is None:
+                    e = fresh()
+                    I.call_function(ecls.lookup("remove")[0], [e, "a"], {}, None, _F())
+                    I.call_function(ecls.lookup("remove")[0], [e, "c"], {}, None, _F())
+                else:
+                    e = mk()
+                return I.get_item(e, val, None, _F())
+            p = ev(t_sz, "getitem by size")
+            c = "Enum[%r] on an enumeration with %s" % (val, label)
+            if p.returned and p.value == want:
+                run.ok("reverse-lookup-first-match", c)
+            else:
+                run.violation("reverse-lookup-first-match", c, "returns %r, expected %r" % (p.value if p.returned else p.raised.describe(), want),
+                              file, ecls.lookup("__getitem__")[0].node.lineno, "pyscsi.utils.enum:Enum.__getitem__")
     # a value is found by equality, not by being the very same object (small ints and literals are shared objects in
     # CPython, which hides an identity comparison): equal values built separately
     for label, stored, probe in (("70000", lambda: int("70000"), lambda: int("7") * 10000), ("'abcd'", lambda: "".join(["ab", "cd"]), lambda: "".join(["a", "bcd"])),
